@@ -2,6 +2,7 @@ package vs
 
 import (
 	"reflect"
+	"sync"
 	"time"
 )
 
@@ -34,18 +35,31 @@ func atomPoint(p any, op string) bool {
 	return true
 }
 
+// atomEnter: inside an execution the operation is a scheduling point (atomPoint); outside one it is
+// made atomic by a process-wide real mutex, released by the returned function.
+var outAtomMu sync.Mutex
+
+func atomEnter(p any, op string) func() {
+	if cur == nil {
+		outAtomMu.Lock()
+		return outAtomMu.Unlock
+	}
+	atomPoint(p, op)
+	return func() {}
+}
+
 type AtomicBool struct{ v bool }
 
-func (a *AtomicBool) Load() bool   { atomPoint(a, "Load"); return a.v }
-func (a *AtomicBool) Store(v bool) { atomPoint(a, "Store"); a.v = v }
+func (a *AtomicBool) Load() bool   { defer atomEnter(a, "Load")(); return a.v }
+func (a *AtomicBool) Store(v bool) { defer atomEnter(a, "Store")(); a.v = v }
 func (a *AtomicBool) Swap(v bool) bool {
-	atomPoint(a, "Swap")
+	defer atomEnter(a, "Swap")()
 	o := a.v
 	a.v = v
 	return o
 }
 func (a *AtomicBool) CompareAndSwap(o, n bool) bool {
-	atomPoint(a, "CAS")
+	defer atomEnter(a, "CAS")()
 	if a.v == o {
 		a.v = n
 		return true
@@ -55,17 +69,17 @@ func (a *AtomicBool) CompareAndSwap(o, n bool) bool {
 
 type atomicInt[T int32 | int64 | uint32 | uint64 | uintptr] struct{ v T }
 
-func (a *atomicInt[T]) Load() T   { atomPoint(a, "Load"); return a.v }
-func (a *atomicInt[T]) Store(v T) { atomPoint(a, "Store"); a.v = v }
-func (a *atomicInt[T]) Add(d T) T { atomPoint(a, "Add"); a.v += d; return a.v }
+func (a *atomicInt[T]) Load() T   { defer atomEnter(a, "Load")(); return a.v }
+func (a *atomicInt[T]) Store(v T) { defer atomEnter(a, "Store")(); a.v = v }
+func (a *atomicInt[T]) Add(d T) T { defer atomEnter(a, "Add")(); a.v += d; return a.v }
 func (a *atomicInt[T]) Swap(v T) T {
-	atomPoint(a, "Swap")
+	defer atomEnter(a, "Swap")()
 	o := a.v
 	a.v = v
 	return o
 }
 func (a *atomicInt[T]) CompareAndSwap(o, n T) bool {
-	atomPoint(a, "CAS")
+	defer atomEnter(a, "CAS")()
 	if a.v == o {
 		a.v = n
 		return true
@@ -81,16 +95,16 @@ type AtomicUintptr = atomicInt[uintptr]
 
 type AtomicValue struct{ v any }
 
-func (a *AtomicValue) Load() any   { atomPoint(a, "Load"); return a.v }
-func (a *AtomicValue) Store(v any) { atomPoint(a, "Store"); a.v = v }
+func (a *AtomicValue) Load() any   { defer atomEnter(a, "Load")(); return a.v }
+func (a *AtomicValue) Store(v any) { defer atomEnter(a, "Store")(); a.v = v }
 func (a *AtomicValue) Swap(v any) any {
-	atomPoint(a, "Swap")
+	defer atomEnter(a, "Swap")()
 	o := a.v
 	a.v = v
 	return o
 }
 func (a *AtomicValue) CompareAndSwap(o, n any) bool {
-	atomPoint(a, "CAS")
+	defer atomEnter(a, "CAS")()
 	if a.v == o {
 		a.v = n
 		return true
@@ -100,16 +114,16 @@ func (a *AtomicValue) CompareAndSwap(o, n any) bool {
 
 type AtomicPointer[T any] struct{ p *T }
 
-func (a *AtomicPointer[T]) Load() *T   { atomPoint(a, "Load"); return a.p }
-func (a *AtomicPointer[T]) Store(p *T) { atomPoint(a, "Store"); a.p = p }
+func (a *AtomicPointer[T]) Load() *T   { defer atomEnter(a, "Load")(); return a.p }
+func (a *AtomicPointer[T]) Store(p *T) { defer atomEnter(a, "Store")(); a.p = p }
 func (a *AtomicPointer[T]) Swap(p *T) *T {
-	atomPoint(a, "Swap")
+	defer atomEnter(a, "Swap")()
 	o := a.p
 	a.p = p
 	return o
 }
 func (a *AtomicPointer[T]) CompareAndSwap(o, n *T) bool {
-	atomPoint(a, "CAS")
+	defer atomEnter(a, "CAS")()
 	if a.p == o {
 		a.p = n
 		return true
@@ -118,21 +132,21 @@ func (a *AtomicPointer[T]) CompareAndSwap(o, n *T) bool {
 }
 
 // function-style atomics on plain variables
-func atomLoad[T any](p *T) T     { atomPoint(p, "Load"); return *p }
-func atomStore[T any](p *T, v T) { atomPoint(p, "Store"); *p = v }
+func atomLoad[T any](p *T) T     { defer atomEnter(p, "Load")(); return *p }
+func atomStore[T any](p *T, v T) { defer atomEnter(p, "Store")(); *p = v }
 func atomAdd[T int32 | int64 | uint32 | uint64 | uintptr](p *T, d T) T {
-	atomPoint(p, "Add")
+	defer atomEnter(p, "Add")()
 	*p += d
 	return *p
 }
 func atomSwap[T any](p *T, v T) T {
-	atomPoint(p, "Swap")
+	defer atomEnter(p, "Swap")()
 	o := *p
 	*p = v
 	return o
 }
 func atomCAS[T comparable](p *T, o, n T) bool {
-	atomPoint(p, "CAS")
+	defer atomEnter(p, "CAS")()
 	if *p == o {
 		*p = n
 		return true
